@@ -19,6 +19,8 @@ pub mod c02;
 pub mod c13;
 #[cfg(feature = "full")]
 pub mod c14;
+#[cfg(feature = "full")]
+pub mod c16;
 pub mod c12;
 #[cfg(feature = "full")]
 pub mod common;
@@ -46,6 +48,8 @@ pub fn run(prop: &str, ctx: &Ctx) -> Option<Report> {
         "C13" => Some(c13::run(ctx)),
         #[cfg(feature = "full")]
         "C14" => Some(c14::run(ctx)),
+        #[cfg(feature = "full")]
+        "C16" => Some(c16::run(ctx)),
         "C12" => Some(c12::run(ctx)),
         _ => None,
     }
@@ -70,6 +74,8 @@ pub fn replay(prop: &str, ctx: &Ctx, case: &Value) -> ReplayResult {
         "C13" => c13::replay(ctx, case),
         #[cfg(feature = "full")]
         "C14" => c14::replay(ctx, case),
+        #[cfg(feature = "full")]
+        "C16" => c16::replay(ctx, case),
         "C12" => c12::replay(ctx, case),
         _ => Err(format!("no replay for property {}", prop)),
     }
